@@ -42,7 +42,8 @@ Section C02.
   Qed.
 
   Lemma c02_between_operations :
-    base_laws base Vb Vk tnb accb rhb whb -> backup_laws backup Vb Vk tnk acck rhk whk ->
+    base_laws base Vb Vk tnb accb rhb whb -> base_laws2 base Vb Vk tnb accb rhb whb ->
+    backup_laws backup Vb Vk tnk acck rhk whk ->
     all_small B0 ->
     forall w0 ops w, initial Vb Vk tnb tnk accb acck B0 w0 -> good_run base backup Vb w0 ops w ->
     (forall p n0, B0 !! p = Some n0 -> p <> s_root ->
@@ -51,18 +52,19 @@ Section C02.
     (forall p, p <> s_root -> Vk w !! p <> None ->
        exists n0 nk, B0 !! p = Some n0 /\ Vk w !! p = Some nk /\ copy_of n0 nk).
   Proof.
-    intros HLb HLk Hsmall w0 ops w Hinit Hrun.
+    intros HLb HLb2 HLk Hsmall w0 ops w Hinit Hrun.
     pose proof Hinit as (_ & _ & _ & HwfB & Hlinks & _ & _).
     apply inv_recoverable.
     eapply (good_run_inv base backup Vb Vk tnb tnk accb acck rhb rhk whb whk B0);
-      [exact HLb | exact HLk | exact Hlinks | exact Hsmall | exact HwfB | exact Hrun |].
+      [exact HLb | exact HLb2 | exact HLk | exact Hlinks | exact Hsmall | exact HwfB | exact Hrun |].
     apply (initial_inv_spec Vb Vk tnb tnk accb acck B0 w0 Hinit).
   Qed.
 End C02.
 
 Theorem C02_between_operations_partial :
   forall base backup Vb Vk tnb tnk accb acck rhb rhk whb whk B0,
-    base_laws base Vb Vk tnb accb rhb whb -> backup_laws backup Vb Vk tnk acck rhk whk ->
+    base_laws base Vb Vk tnb accb rhb whb -> base_laws2 base Vb Vk tnb accb rhb whb ->
+    backup_laws backup Vb Vk tnk acck rhk whk ->
     all_small B0 ->
     forall w0 ops w, initial Vb Vk tnb tnk accb acck B0 w0 -> good_run base backup Vb w0 ops w ->
     (forall p n0, B0 !! p = Some n0 -> p <> s_root ->
